@@ -70,7 +70,7 @@ def jobs(tier, seed):
         bss = sorted({1, 2, S, S + 3}) if tier == "quick" else list(range(1, S + 4))
         devs = [1, 2] if tier == "quick" else [1, 2, 3, 4, 8]
         for dv in devs:
-            for bs in (bss if dv == 1 else ([2, S + 3] if tier == "quick" else [1, 2, S + 3])):
+            for bs in (bss if dv == 1 else [1, 2, S + 3]):   # bs=1 on several devices: more than one batch per device
                 for solver in (("vi", "savi") if (dv == 1 and bs == bss[-1]) else ("vi",)):
                     cfg = dict(S=S, A=A, E=E, ds=ds, da=da, de=de, offset=off, prob_array=pa, bs=bs)
                     out.append(dict(name=f"sweep-{solver}-S{S}A{A}E{E}-d{ds}{da}{de}-o{off}-pa{int(pa)}-bs{bs}-dev{dv}",
@@ -137,12 +137,14 @@ def sweep_obligations(ob, L, new, pol, V, gamma, pre, action_space, cex_extra):
                      V=kit.model_array(m, V), gamma=zx.model_value(m, gamma))
             return d
         return f
+    scaled = list(np.asarray(L.R, dtype=object).flat) + list(V)
+    unit = list(np.asarray(L.P, dtype=object).flat) + [gamma]
     for i in range(S):
-        ob.prove(f"sweep==bellman[{i}]", pre, zx.eq(new[i], B[i]), cex=cexf(i, "sweep"))
+        ob.prove(f"sweep==bellman[{i}]", pre, zx.eq(new[i], B[i]), cex=cexf(i, "sweep"), margin=(new[i], B[i], scaled, unit))
         member, idx = kit.policy_row_index(list(pol[i]), np.asarray(action_space))
         ob.prove(f"policy_in_action_space[{i}]", pre, member, cex=cexf(i, "policy_member"))
         qsel = kit.lookup(Q[i], idx)
-        ob.prove(f"policy_greedy[{i}]", pre, zx.eq(qsel, B[i]), cex=cexf(i, "policy_greedy"))
+        ob.prove(f"policy_greedy[{i}]", pre, zx.eq(qsel, B[i]), cex=cexf(i, "policy_greedy"), margin=(qsel, B[i], scaled, unit))
 
 
 def differential(ob, solver, pb, new_terms, pol_terms, pairs, Vc, gc):
@@ -317,7 +319,7 @@ def replay(data):
                                            jnp.asarray(g), jnp.asarray(V)))
     solver.values, solver.gamma = jnp.asarray(V), jnp.asarray(g)
     pol = np.asarray(solver._extract_policy())
-    tol = 1e-7 * max(1.0, np.abs(B).max())
+    tol = 1e-7 * max(np.abs(R).max(), np.abs(V).max(), 1e-300)   # relative to the magnitude of the inputs (the property is scale-free)
     i = c["state"]
     if c["kind"] == "sweep":
         bad = new.shape != B.shape or abs(new[i] - B[i]) > tol
